@@ -3,7 +3,10 @@
 (* Trace validation of the gaussian-splat codecs (C15).  Lines written by  *)
 (* `vh splat-exec` (harness/splatfam; units in its package comment):       *)
 (*                                                                         *)
-(*  {"k":"spz","hdr":[version,n,deg,fb],"pay":[bytes],"frame","ok",        *)
+(*  {"k":"spz","hdr":[version,n,deg,fb],"pay":[bytes] or "pat":name (the   *)
+(*   bytes are PatPayload(pat, hdr); plen, psum bind what was encoded),     *)
+(*   "per":P (dec arrays logged with period P, x<arr> the exceptions),      *)
+(*   "dl":delivery of the file, "la","lg": size-ladder target, "frame","ok",*)
 (*   "dec":{"n","hdr","lens":[5],"shlens":[..],"other":[names],            *)
 (*          "pos":[[[kind,m,e] x3]],"alpha":[[q,ex]],"color":[[q,q,q,ex]], *)
 (*          "scale":[[q,q,q,ex]],"rot":[[q,q,q,wq,ex]],"sh":[[[q,q,q,ex]]]}*)
@@ -29,37 +32,71 @@ Report(bad) == IF bad = {} THEN TRUE ELSE PrintT(ToJson([l |-> l, bad |-> bad]))
 If(c, name) == IF c THEN {name} ELSE {}
 
 \* ------------------------------------------------------------------ SPZ ---
+(***************************************************************************)
+(* Observation of one array, logged losslessly with period P (0: in full): *)
+(* head = the first min(n, P) entries; exc = <<i, entry>> for the later     *)
+(* entries that differ from entry i-P.  So entry i of the observation is   *)
+(*   head[i+1] if i < P, the listed one if i is listed, else entry i-P.    *)
+(* ArrOk: the log is well formed and every entry i satisfies Ok(i, entry); *)
+(* an unlisted entry whose bytes equal those of entry i-P (Same(i)) is not *)
+(* evaluated again: Ok depends on the bytes only.  Ill-formed logs are     *)
+(* rejected without being dereferenced.                                    *)
+(***************************************************************************)
+ArrOk(head, exc, n, P, Ok(_, _), Same(_)) ==
+    LET hl == IF P <= 0 \/ n < P THEN n ELSE P
+        wf == /\ Len(head) = hl
+              /\ \A k \in DOMAIN exc : Len(exc[k]) = 2 /\ exc[k][1] \in hl..(n - 1)
+              /\ \A k1, k2 \in DOMAIN exc : exc[k1][1] = exc[k2][1] => k1 = k2
+        xi == {exc[k][1] : k \in DOMAIN exc}
+        X(i) == exc[CHOOSE k \in DOMAIN exc : exc[k][1] = i][2]
+        RECURSIVE Obs(_)
+        Obs(i) == IF i < hl THEN head[i + 1] ELSE IF i \in xi THEN X(i) ELSE Obs(i - P)
+    IN wf /\ \A i \in 0..(n - 1) : IF i < hl \/ i \in xi THEN Ok(i, Obs(i)) ELSE Same(i) \/ Ok(i, Obs(i))
+
 SpzBad(ln) ==
     LET hdr == ln.hdr
-        pay == ln.pay
         n == hdr[2]
         dim == ShDim(hdr[3])
+        P == ln.per
+        pay == IF ln.pat = "" THEN ln.pay ELSE PatPayload(ln.pat, hdr)
+        RECURSIVE Sum(_, _)
+        Sum(lo, hi) == IF lo > hi THEN 0 ELSE IF lo = hi THEN pay[lo]
+                       ELSE LET mid == (lo + hi) \div 2 IN Sum(lo, mid) + Sum(mid + 1, hi)
+        bind == /\ ln.plen = PayloadLen(hdr) /\ Len(pay) = PayloadLen(hdr)
+                /\ (ln.pat = "" \/ ln.psum = Sum(1, Len(pay)))     \* the bytes encoded are the pattern's
+                /\ (ln.la = "" \/ Split(hdr, ln.la, ln.lg))
         d == ln.dec
-        I == 0..(n - 1)
-        C3 == 0..2
+        hl == IF P <= 0 \/ n < P THEN n ELSE P
+        SameBytes(o1, o2, len) == \A t \in 1..len : pay[o1 + t] = pay[o2 + t]
         lensOk == /\ d.n = n /\ d.hdr = hdr /\ d.other = <<>>
                   /\ d.lens = [j \in 1..5 |-> n]
                   /\ d.shlens = [j \in 1..(IF n = 0 THEN 0 ELSE dim) |-> n]
-                  /\ Len(d.pos) = n /\ Len(d.alpha) = n /\ Len(d.color) = n /\ Len(d.scale) = n
-                  /\ Len(d.rot) = n /\ Len(d.sh) = (IF dim = 0 THEN 0 ELSE n)
-    IN IF Len(pay) # PayloadLen(hdr) THEN {"Model.SpzCase"}
+        Sh3(i, k) == <<DeqSh(hdr, pay, i, k, 0), DeqSh(hdr, pay, i, k, 1), DeqSh(hdr, pay, i, k, 2), 1>>
+    IN IF ~bind THEN {"Model.SpzCase"}
        ELSE IF ~ln.ok THEN {"C15.SpzAccept"}
        ELSE IF ~lensOk THEN {"C15.SpzLen"}
-       ELSE If(\E i \in I, c \in C3 : d.pos[i + 1][c + 1] # DeqPos(hdr, pay, i, c), "C15.SpzPos")
-            \cup If(\E i \in I : d.alpha[i + 1] # <<DeqAlpha(hdr, pay, i), 1>>, "C15.SpzAlpha")
-            \cup If(\E i \in I : d.color[i + 1] # <<DeqColor(hdr, pay, i, 0), DeqColor(hdr, pay, i, 1), DeqColor(hdr, pay, i, 2), 1>>,
-                    "C15.SpzColor")
-            \cup If(\E i \in I : d.scale[i + 1] # <<DeqScale(hdr, pay, i, 0), DeqScale(hdr, pay, i, 1), DeqScale(hdr, pay, i, 2), 1>>,
-                    "C15.SpzScale")
-            \cup If(\E i \in I : \/ SubSeq(d.rot[i + 1], 1, 3) # <<DeqRot(hdr, pay, i, 0), DeqRot(hdr, pay, i, 1), DeqRot(hdr, pay, i, 2)>>
-                                 \/ d.rot[i + 1][5] # 1
-                                 \/ ~RotWOk(hdr, pay, i, d.rot[i + 1][4]),
-                    "C15.SpzRot")
-            \cup If(dim > 0 /\ \E i \in I : \/ Len(d.sh[i + 1]) # dim
-                                            \/ \E k \in 0..(dim - 1) :
-                                                 d.sh[i + 1][k + 1] # <<DeqSh(hdr, pay, i, k, 0), DeqSh(hdr, pay, i, k, 1),
-                                                                        DeqSh(hdr, pay, i, k, 2), 1>>,
-                    "C15.SpzSH")
+       ELSE If(~ArrOk(d.pos, d.xpos, n, P,
+                      LAMBDA i, e : e = <<DeqPos(hdr, pay, i, 0), DeqPos(hdr, pay, i, 1), DeqPos(hdr, pay, i, 2)>>,
+                      LAMBDA i : SameBytes(OffPos(hdr, i, 0), OffPos(hdr, i - P, 0), 3 * PosSize(hdr[1]))), "C15.SpzPos")
+            \cup If(~ArrOk(d.alpha, d.xalpha, n, P,
+                           LAMBDA i, e : e = <<DeqAlpha(hdr, pay, i), 1>>,
+                           LAMBDA i : SameBytes(OffAlpha(hdr, i), OffAlpha(hdr, i - P), 1)), "C15.SpzAlpha")
+            \cup If(~ArrOk(d.color, d.xcolor, n, P,
+                           LAMBDA i, e : e = <<DeqColor(hdr, pay, i, 0), DeqColor(hdr, pay, i, 1), DeqColor(hdr, pay, i, 2), 1>>,
+                           LAMBDA i : SameBytes(OffColor(hdr, i, 0), OffColor(hdr, i - P, 0), 3)), "C15.SpzColor")
+            \cup If(~ArrOk(d.scale, d.xscale, n, P,
+                           LAMBDA i, e : e = <<DeqScale(hdr, pay, i, 0), DeqScale(hdr, pay, i, 1), DeqScale(hdr, pay, i, 2), 1>>,
+                           LAMBDA i : SameBytes(OffScale(hdr, i, 0), OffScale(hdr, i - P, 0), 3)), "C15.SpzScale")
+            \cup If(~ArrOk(d.rot, d.xrot, n, P,
+                           LAMBDA i, e : /\ Len(e) = 5
+                                         /\ SubSeq(e, 1, 3) = <<DeqRot(hdr, pay, i, 0), DeqRot(hdr, pay, i, 1), DeqRot(hdr, pay, i, 2)>>
+                                         /\ e[5] = 1
+                                         /\ RotWOk(hdr, pay, i, e[4]),
+                           LAMBDA i : SameBytes(OffRot(hdr, i, 0), OffRot(hdr, i - P, 0), 3)), "C15.SpzRot")
+            \cup If(IF dim = 0 THEN d.sh # <<>> \/ d.xsh # <<>>
+                    ELSE ~ArrOk(d.sh, d.xsh, n, P,
+                                LAMBDA i, e : Len(e) = dim /\ \A k \in 0..(dim - 1) : e[k + 1] = Sh3(i, k),
+                                LAMBDA i : SameBytes(OffSh(hdr, i, 0, 0), OffSh(hdr, i - P, 0, 0), 3 * dim)), "C15.SpzSH")
 
 \* --------------------------------------------------------------- .splat ---
 ColMilli(x) == Clamp(x, 0, 255 * Step)      \* colours clamp to the displayable range
